@@ -2,7 +2,7 @@
    only.  The model (model/Concat.v) is the repaired src/concat/mod.rs. *)
 From Coq Require Import NArith List.
 From V Require Import lib.Words model.Concat model.ConcatRun spec.ConcatSpec proofs.Concat_proofs proofs.Concat_inv
-  proofs.Concat_run proofs.Concat_findings.
+  proofs.Concat_run proofs.Concat_findings proofs.Concat_delay.
 Import ListNotations.
 Open Scope N_scope.
 
@@ -55,17 +55,41 @@ Definition C12_slicing_stmt : Prop :=
     let r1 := run_native fuel1 caps1 pc1 false [] ts1 s0 in
     let r2 := run_native fuel2 caps2 pc2 false [] ts2 s0 in
     rr_final r1 = rr_final r2 /\ rr_emitted r1 = rr_emitted r2.
-(* Proved so far (C12_slicing_partial below): along every such run no call panics and the
-   invariant holds, so the two runs differ at most in how the same calls are cut.  Missing: the
-   phase-by-phase commutation lemmas (look-ahead collection, header emission, two-byte-delayed body
-   copy commute with splitting the input and with running out of output space); that part of the
-   statement is covered by the differential check only (checks/c12.py: every split point, every
-   zero-space call index, 1-byte buffers, against the one-shot run). *)
+(* Proved so far: (1) C12_slicing_partial - along every such run no call panics and the invariant
+   holds, so the two runs differ at most in how the same calls are cut; (2) C12_slicing_body - the
+   statement for the body phase of a member (everything after its realigned header, i.e. all but
+   the first <= 6 bytes): any two sequences of calls, with any buffers, cursors and amounts of free
+   output space (including none), that consume the same bytes write the same bytes and hold back the
+   same two bytes, by the delay-line equation C12_body_delay_line; (3) C12_restore / C12_serialize -
+   save/restore never matters.  Missing: the same commutation for the three short phases at a member
+   boundary (strip the previous end marker; collect the 5 look-ahead bytes; emit the realigned
+   header) and the induction over members, including the error answers; that part of the statement
+   is covered by the differential check only (checks/c12.py: every split point, every zero-space
+   call index, 1-byte buffers, against the one-shot run). *)
 Theorem C12_slicing_partial : forall fuel caps percall rall rs tasks s0,
   Inv s0 -> tasks_ok (Started s0) tasks ->
   rr_final (run_native fuel caps percall rall rs tasks s0) <> Panicked.
 Proof. exact run_native_never_panics. Qed.
 Print Assumptions C12_slicing_partial.
+
+(* One call of the body copy, whatever the buffers, cursors and free space: what it wrote followed
+   by what it holds back afterwards is what it held back before followed by what it consumed; the
+   output buffer outside the written span is untouched. *)
+Theorem C12_body_delay_line : forall s input in_off out off r,
+  new_stream_pending s = None -> last_bytes_len s <= 2 -> in_off <= lenN input -> off <= lenN out ->
+  stream_body s input in_off out off = Val r ->
+  span (r_out r) off (r_off r) ++ held (r_s r) = held s ++ span input in_off (r_in r) /\
+  takeN off (r_out r) = takeN off out /\ dropN (r_off r) (r_out r) = dropN (r_off r) out.
+Proof. exact stream_body_delay. Qed.
+Print Assumptions C12_body_delay_line.
+
+(* Slicing independence of the body phase. *)
+Theorem C12_slicing_body : forall s c e1 e2 s1 s2,
+  BI s -> body_calls s c e1 s1 -> body_calls s c e2 s2 ->
+  last_bytes_len s1 = 2 -> last_bytes_len s2 = 2 ->
+  e1 = e2 /\ lb0 s1 = lb0 s2 /\ lb1 s1 = lb1 s2.
+Proof. exact body_slicing_independent. Qed.
+Print Assumptions C12_slicing_body.
 
 (* The code before the repairs violated the slicing statement in three ways (each replayed on the
    real pre-fix code; all fixed, see known_findings.json): *)
